@@ -170,6 +170,197 @@ Theorem C14_spec_is_generic : forall (D : schema) (ST : nat -> stmt) (ns : nat) 
   srun D ST ns (sinit init nodes) ls = Some st -> greach ST init (s_g st).
 Proof. exact srun_greach. Qed.
 
+(* The acceptors the correspondence check runs on the recorded traces build a run of the system,
+   label by label: an accepted trace is a reachable state in which, for the i-th recorded
+   operation, call c+i received exactly the recorded responses, sent every recorded request and
+   ended with the recorded outcome (as far as the caller can observe it).  So every theorem above
+   speaks about every accepted trace. *)
+Theorem C14_accept_sound : forall ST tr st c c' st',
+  g_accept ST st c tr = (c', V_ok st') ->
+  (exists ls, grun ST st ls = Some st') /\
+  forall i o, nth_error tr i = Some o -> op_matches st' (c + i) o.
+Proof. exact g_accept_sound. Qed.
+
+Theorem C14_spec_accept_sound : forall D ST ns tr st c c' st',
+  s_accept D ST ns st c tr = (c', V_ok st') -> exists ls, srun D ST ns st ls = Some st'.
+Proof. exact s_accept_sound. Qed.
+
+(* ---------------------------------------------------------------------------------------- *)
+(* non-vacuity: concrete histories of the specification system                                *)
+(* ---------------------------------------------------------------------------------------- *)
+Definition exST : nat -> stmt := fun s => mkStmt [1; N.of_nat s] (N.of_nat s + 1).
+Definition cA : list col := [mkCol 1 TInt; mkCol 2 TText].
+Definition cB : list col := [mkCol 1 TInt; mkCol 2 TText; mkCol 3 TBigInt].
+Definition exD : schema :=
+  mkSchema (fun _ v => if v =? 0 then cA else cB) (fun _ v => [7; v + 1])
+           (fun s k => if k =? 0 then [1; N.of_nat s] else [1; N.of_nat s; k]) (fun _ => false).
+Definition exNodes (ext : bool) : nat -> node := fun _ => mkNode ext (fun _ => true) (fun _ => 0) (fun _ => 0).
+Definition exInit (ext : bool) : nat -> meta := fun _ => meta_of_cols (if ext then Some [7; 1] else None) cA.
+Definition exArgs (uc : bool) : xargs := mkX 0 uc [9; 9] 6 (Some 9) None None (Some 5%Z).
+Definition payA : payload := mkPayload None 1 [Some [0;0;0;1]; Some [104; 105]].
+Definition payB : payload := mkPayload None 1 [Some [0;0;0;2]; Some [104]; Some [0;0;0;0;0;0;0;3]].
+Definition cols_eqb := list_eqb col_eqb.
+
+(* the hypotheses of C14_faithful hold of exD / exST / exInit *)
+Example C14_ex_premises :
+  (forall s v v', mid_of exD s v = mid_of exD s v' -> cols_of exD s v = cols_of exD s v') /\
+  (forall s v, mid_of exD s v <> []) /\
+  (forall s s', s_id (exST s) = s_id (exST s') -> s = s') /\
+  (forall s s', s_text (exST s) = s_text (exST s') -> s = s') /\
+  (forall s, meta_ok exD s (exInit true s)) /\ (forall s, meta_ok exD s (exInit false s)).
+Proof.
+  repeat split.
+  - intros s v v' H. simpl in *. inversion H. assert (v = v') by lia. now subst.
+  - intros s v H. discriminate.
+  - intros s s' H. simpl in H. inversion H. lia.
+  - intros s s' H. simpl in H. lia.
+  - intros s. right; right. exists 0. split; reflexivity.
+  - intros s. right; left. reflexivity.
+Qed.
+
+(* extension on: execute (cached metadata used), ALTER + eviction on the node, execute again:
+   UNPREPARED -> PREPARE -> same id, new metadata id and columns -> resend presenting the NEW id
+   with skip_metadata -> rows without metadata decoded with the NEW columns *)
+Definition exHist1 : list slabel :=
+  [SL_exec 0 0 (exArgs false); SL_serve 0 payA; SL_recv 0;
+   SL_event 0 (EV_schema 0 1); SL_event 0 (EV_evicted 0);
+   SL_exec 1 0 (exArgs false); SL_serve 1 payB; SL_recv 1; SL_serve 1 payB; SL_recv 1; SL_tick 1;
+   SL_serve 1 payB; SL_recv 1].
+
+Example C14_ex_transparent :
+  match srun exD exST 1 (sinit (exInit true) (exNodes true)) exHist1 with
+  | Some st =>
+      let k0 := g_calls (s_g st) 0 in let k1 := g_calls (s_g st) 1 in
+      match k_st k0, k_rcvd k0, k_st k1, k_rcvd k1, k_sent k1 with
+      | CS_done (O_rows u0 _ _ _), [RRows b0],
+        CS_done (O_rows u1 _ n1 c1), [RRows b1; RPrepared id pm; RUnprepared _],
+        [(Q_execute f2, Some m2); (Q_prepare _, None); (Q_execute f1, Some m1)] =>
+          cols_eqb (m_cols u0) cA && cols_eqb (m_cols u1) cB &&
+          match rb_meta b0, rb_meta b1 with RM_none _, RM_none _ => true | _, _ => false end &&
+          bytes_eqb id (s_id (exST 0)) && cols_eqb (m_cols pm) cB &&
+          obytes_eqb (f_rmid f1) (Some [7; 1]) && obytes_eqb (f_rmid f2) (Some [7; 2]) &&
+          f_skip f1 && f_skip f2 && same_core f1 f2 && cols_eqb (m_cols m2) cB &&
+          obytes_eqb (m_id (g_cells (s_g st) 0)) (Some [7; 2]) &&
+          match s_enc st 1 with Some (enc, p) => cols_eqb enc cB && (p_nrows p =? n1) | None => false end
+      | _, _, _, _, _ => false
+      end
+  | None => false
+  end = true.
+Proof. vm_compute. reflexivity. Qed.
+
+(* extension on, ALTER without eviction: the execute presents the old id, the node answers with
+   METADATA_CHANGED + new id + columns, the rows are decoded with those, the cell is replaced and
+   the next execute presents the new id and gets rows without metadata *)
+Definition exHist2 : list slabel :=
+  [SL_event 0 (EV_schema 0 1);
+   SL_exec 0 0 (exArgs false); SL_serve 0 payB; SL_recv 0;
+   SL_exec 1 0 (exArgs true); SL_serve 1 payB; SL_recv 1].
+
+Example C14_ex_new_id :
+  match srun exD exST 1 (sinit (exInit true) (exNodes true)) exHist2 with
+  | Some st =>
+      let k0 := g_calls (s_g st) 0 in let k1 := g_calls (s_g st) 1 in
+      match k_st k0, k_rcvd k0, k_sent k0, k_st k1, k_rcvd k1, k_sent k1 with
+      | CS_done (O_rows u0 _ _ _), [RRows b0], [(Q_execute f0, _)],
+        CS_done (O_rows u1 _ _ _), [RRows b1], [(Q_execute f1, _)] =>
+          cols_eqb (m_cols u0) cB && cols_eqb (m_cols u1) cB &&
+          match rb_meta b0, rb_meta b1 with RM_full (Some i) _, RM_none _ => bytes_eqb i [7; 2] | _, _ => false end &&
+          obytes_eqb (f_rmid f0) (Some [7; 1]) && obytes_eqb (f_rmid f1) (Some [7; 2]) &&
+          match g_ann (s_g st) 0 with [m] => obytes_eqb (m_id m) (Some [7; 2]) | _ => false end
+      | _, _, _, _, _, _ => false
+      end
+  | None => false
+  end = true.
+Proof. vm_compute. reflexivity. Qed.
+
+(* the node now prepares the text under another id: RepreparedIdChanged, two requests, no resend *)
+Example C14_ex_id_changed :
+  match srun exD exST 1 (sinit (exInit true) (exNodes true))
+          [SL_event 0 (EV_idchange 0 3); SL_exec 0 0 (exArgs false); SL_serve 0 payA; SL_recv 0;
+           SL_serve 0 payA; SL_recv 0] with
+  | Some st =>
+      let k0 := g_calls (s_g st) 0 in
+      match k_st k0, k_rcvd k0, k_sent k0 with
+      | CS_done (O_err E_IdChanged), [RPrepared id _; RUnprepared _], [(Q_prepare _, None); (Q_execute _, Some _)] =>
+          bytes_eqb id [1; 0; 3] && negb (bytes_eqb id (s_id (exST 0)))
+      | _, _, _ => false
+      end
+  | None => false
+  end = true.
+Proof. vm_compute. reflexivity. Qed.
+
+(* batch of two prepared statements, the second evicted on the node: BATCH, UNPREPARED(id of 1),
+   PREPARE of statement 1, the identical BATCH again, Void *)
+Example C14_ex_batch :
+  match srun exD exST 2 (sinit (exInit true) (exNodes true))
+          [SL_event 0 (EV_evicted 1);
+           SL_batch 0 0 (mkB [BI_prep 0 [1]; BI_query 77; BI_prep 1 [2]] 0 6 None (Some 8%Z));
+           SL_serve 0 payA; SL_recv 0; SL_serve 0 payA; SL_recv 0; SL_serve 0 payA; SL_recv 0] with
+  | Some st =>
+      let k0 := g_calls (s_g st) 0 in
+      match k_st k0, k_rcvd k0, k_sent k0 with
+      | CS_done O_norows, [RVoid; RPrepared _ _; RUnprepared id], [(Q_batch g, None); (Q_prepare t, None); (Q_batch f, None)] =>
+          bytes_eqb id (s_id (exST 1)) && batch_frame_eqb f g && (t =? s_text (exST 1)) &&
+          (List.length (bf_items f) =? 3)%nat
+      | _, _, _ => false
+      end
+  | None => false
+  end = true.
+Proof. vm_compute. reflexivity. Qed.
+
+(* The premise "extension or cached metadata off" of C14_faithful cannot be dropped: without the
+   extension and with use_cached_result_metadata on, ALTER + eviction + re-preparation leaves the
+   cell untouched (the PREPARED of the re-preparation carries no metadata id, [reprepare] then
+   returns before looking at its columns) and the rows encoded with the new columns are decoded
+   with the old ones.  This is the risk the driver's documentation of
+   set_use_cached_result_metadata describes; see docs/C14.md. *)
+Example C14_ex_stale_without_ext :
+  match srun exD exST 1 (sinit (exInit false) (exNodes false))
+          [SL_event 0 (EV_schema 0 1); SL_event 0 (EV_evicted 0);
+           SL_exec 0 0 (exArgs true); SL_serve 0 payB; SL_recv 0; SL_serve 0 payB; SL_recv 0; SL_tick 0;
+           SL_serve 0 payB; SL_recv 0] with
+  | Some st =>
+      let k0 := g_calls (s_g st) 0 in
+      match k_st k0, k_rcvd k0, s_enc st 0 with
+      | CS_done (O_rows u _ _ _), [RRows b; RPrepared _ pm; RUnprepared _], Some (enc, _) =>
+          cols_eqb (m_cols u) cA && cols_eqb enc cB && cols_eqb (m_cols pm) cB &&
+          match rb_meta b with RM_none _ => true | _ => false end
+      | _, _, _ => false
+      end
+  | None => false
+  end = true.
+Proof. vm_compute. reflexivity. Qed.
+
+(* statement whose PREPARED announces an id but no columns: no skip_metadata, empty id presented,
+   the node answers with id + columns, which are stored although the id is "the same" *)
+Example C14_ex_late_metadata :
+  let D := mkSchema (cols_of exD) (mid_of exD) (sid exD) (fun _ => true) in
+  match srun D exST 1 (sinit (fun _ => meta_of_cols (Some [7; 1]) []) (exNodes true))
+          [SL_exec 0 0 (exArgs true); SL_serve 0 payA; SL_recv 0; SL_exec 1 0 (exArgs true)] with
+  | Some st =>
+      match k_sent (g_calls (s_g st) 0), k_st (g_calls (s_g st) 0), k_sent (g_calls (s_g st) 1) with
+      | [(Q_execute f0, Some m0)], CS_done (O_rows u _ _ _), [(Q_execute f1, Some m1)] =>
+          negb (f_skip f0) && obytes_eqb (f_rmid f0) (Some []) && (m_count m0 =? 0) &&
+          cols_eqb (m_cols u) cA && f_skip f1 && obytes_eqb (f_rmid f1) (Some [7; 1]) && cols_eqb (m_cols m1) cA
+      | _, _, _ => false
+      end
+  | None => false
+  end = true.
+Proof. vm_compute. reflexivity. Qed.
+
+(* the acceptor accepts the trace of the first history (as the mock would record it) *)
+Example C14_ex_accept :
+  let x1 := mkXchg (Q_execute (mk_exec_frame (exST 0) true (exArgs false) (exInit true 0)))
+                   (RRows (mkRows (RM_none 2) None 1 (p_cells payA))) cA payA in
+  match s_accept exD exST 1 (sinit (exInit true) (exNodes true)) 0
+          [TO_exec 0 true (exArgs false) [x1]
+             (OB_rows cA None (Some [[Some [0;0;0;1]; Some [104; 105]]]) true);
+           TO_event 0 (EV_evicted 0)] with
+  | (_, V_ok _) => true
+  | _ => false
+  end = true.
+Proof. vm_compute. reflexivity. Qed.
+
 Print Assumptions C14_transparent.
 Print Assumptions C14_direct.
 Print Assumptions C14_id_changed.
@@ -182,3 +373,5 @@ Print Assumptions C14_frame_presents_id.
 Print Assumptions C14_never_skip_with_empty.
 Print Assumptions C14_faithful.
 Print Assumptions C14_spec_is_generic.
+Print Assumptions C14_accept_sound.
+Print Assumptions C14_spec_accept_sound.
